@@ -31,6 +31,7 @@ type params struct {
 	Callers int
 	Draws   int  // static only: draws per caller
 	Chunk   int  // reader granularity: 0 = one line per Read, n = n bytes per Read
+	Reuse   bool // every caller decodes into ONE Target variable, draw after draw, and keeps (shallow) copies of what it drew
 	Defs    bool // default headers whose value slice has spare capacity (as three -header flags with one key build it); every target repeats that key
 }
 
@@ -38,6 +39,9 @@ func (p params) name() string {
 	s := fmt.Sprintf("%s,targets=%d,callers=%d,draws=%d,chunk=%d", p.Kind, p.Targets, p.Callers, p.Draws, p.Chunk)
 	if p.Defs {
 		s += ",defaults-with-spare-capacity"
+	}
+	if p.Reuse {
+		s += ",callers-reuse-their-target-variable"
 	}
 	return s
 }
@@ -153,12 +157,19 @@ func (w *world) main() {
 	for c := 0; c < p.Callers; c++ {
 		c := c
 		vsched.GoEnv(func() {
+			var reused vegeta.Target
 			for k := 0; ; k++ {
 				if p.Kind == "static" && k == p.Draws {
 					return
 				}
 				var t vegeta.Target
-				err := tr(&t)
+				var err error
+				if p.Reuse {
+					err = tr(&reused)
+					t = reused // a copy as a worker would keep it: same header map unless the targeter made a new one
+				} else {
+					err = tr(&t)
+				}
 				w.draws[c] = append(w.draws[c], draw{c, t, err})
 				if err != nil {
 					return
@@ -303,6 +314,9 @@ func plans() []plan {
 			}
 		}
 	}
+	// callers that decode into one Target variable again and again (http and static overwrite it entirely)
+	ps = append(ps, plan{params{Kind: "http", Targets: 3, Callers: 2, Reuse: true}, -1}, plan{params{Kind: "http", Targets: 2, Callers: 1, Reuse: true}, -1},
+		plan{params{Kind: "static", Targets: 2, Callers: 2, Draws: 3, Reuse: true}, -1})
 	return ps
 }
 
